@@ -20,27 +20,24 @@ Record part_dom (b : list N) (p : fpart) (hb : list N) : Prop := {
             | None => True
             | Some (fn, st, ct) => value_dom st fn /\ text_ok ct = true /\ has_forbidden ct = false /\ H.strip ct = ct
             end;
-  pd_scan : is_file p = true -> scan_ok (fp_nstyle p) (fp_name p);
   pd_hdr : part_header_bytes p = Some hb;
   pd_no_hdr : ~ occurs (DASH2 ++ b) hb;
   pd_no_body : ~ occurs (DASH2 ++ b) (fp_body p)
 }.
 
-Lemma part_ok_dom b p : part_ok b p = true -> exists hb, part_dom b p hb.
+Lemma part_ok_dom b p : part_ok_full b p = true -> exists hb, part_dom b p hb.
 Proof.
-  unfold part_ok, part_ok_full. intros H.
-  apply andb_true_iff in H as [H Hd]. apply andb_true_iff in H as [H H5]. apply andb_true_iff in H as [H H4].
+  unfold part_ok_full. intros H.
+  apply andb_true_iff in H as [H H5]. apply andb_true_iff in H as [H H4].
   apply andb_true_iff in H as [H H3]. apply andb_true_iff in H as [H1 H2].
   destruct (part_header_bytes p) as [hb|] eqn:Ehb; [|discriminate]. exists hb.
-  apply negb_true_iff in H5, H4, Hd. constructor.
+  apply negb_true_iff in H5, H4. constructor.
   - apply value_ok_full_dom. exact H1.
   - destruct (fp_file p) as [[[fn st] ct]|]; [|exact I].
     apply andb_true_iff in H2 as [Ha Hb]. unfold ctype_ok in Hb.
     apply andb_true_iff in Hb as [Hb Hb3]. apply andb_true_iff in Hb as [Hb1 Hb2].
     split; [apply value_ok_full_dom; exact Ha|]. split; [exact Hb1|]. split; [apply negb_true_iff; exact Hb2|].
     apply str_eqb_eq. exact Hb3.
-  - intros Hf. unfold part_defect in Hd. apply orb_false_iff in Hd as [Hd _].
-    unfold value_defect in Hd. destruct (fp_nstyle p); [|exact I]. rewrite Hf in Hd. exact Hd.
   - exact Ehb.
   - apply occurs_b_false. exact H5.
   - apply occurs_b_false. exact H4.
@@ -58,7 +55,7 @@ Theorem parse_part_encoded cfg b p hb :
   part_dom b p hb -> N.of_nat (length hb) <= cfg_max_hdr cfg ->
   parse_part cfg (hb ++ CRLF2 ++ fp_body p ++ CRLF) = Ok (Some (item_of p)).
 Proof.
-  intros [Hname Hfile Hscan Hhdr _ _] Hmax.
+  intros [Hname Hfile Hhdr _ _] Hmax.
   destruct (value_dom_bytes _ _ Hname) as (bn & Hbn & Hbn_ne & Hbn_b).
   destruct Hname as (Hnm_ne & _ & Hnm_clean).
   assert (Hlim : (cfg_max_hdr cfg <? N.of_nat (length hb)) = false) by lia.
@@ -68,7 +65,6 @@ Proof.
     destruct Hfile as (Hfn & Hct_t & Hct_f & Hct_s).
     destruct (value_dom_bytes _ _ Hfn) as (bf & Hbf & Hbf_ne & Hbf_b).
     destruct Hfn as (Hfn_ne & _ & Hfn_clean).
-    assert (Hsc : scan_ok (fp_nstyle p) (fp_name p)) by (apply Hscan; unfold is_file; rewrite Ef; reflexivity).
     rewrite (header_text_file p fn st2 ct bn bf Ef Hbn Hbf) in Hhdr.
     set (d := s_form_data ++ 59 :: fld (fp_nstyle p) s_name (fp_name p) bn ++ 59 :: fld st2 s_filename fn bf) in *.
     assert (Hd_clean : has_forbidden d = false) by (apply disp_clean2; assumption).
@@ -98,7 +94,7 @@ Proof.
     rewrite (utf8_decode_encode _ _ Hhdr).
     rewrite (h_parse_two d ct Hd_clean Hd_strip Hct_f Hct_s).
     change (h_get s_content_disposition _) with (Some d).
-    destruct (ph_file (fp_nstyle p) (fp_name p) bn st2 fn bf Hbn Hbn_ne Hbf Hbf_ne Hsc) as (dict & Hph & Hg1 & Hg2).
+    destruct (ph_file (fp_nstyle p) (fp_name p) bn st2 fn bf Hbn Hbn_ne Hbf Hbf_ne) as (dict & Hph & Hg1 & Hg2).
     fold d in Hph. cbv zeta. rewrite Hph, str_eqb_refl.
     replace (e1 ++ 13 :: 10 :: 67 :: e2') with ((e1 ++ [13; 10]) ++ 67 :: e2') by (rewrite <- app_assoc; reflexivity).
     replace (((e1 ++ [13; 10]) ++ 67 :: e2') ++ CRLF2 ++ fp_body p ++ CRLF)
@@ -149,7 +145,7 @@ Qed.
 
 Lemma parse_parts_encoded cfg b ps xs : forall af,
   Forall2 (fun p x => part_bytes p = Some x) ps xs ->
-  Forall (fun p => part_ok b p = true) ps ->
+  Forall (fun p => part_ok_full b p = true) ps ->
   Forall (fun p => header_len p <= cfg_max_hdr cfg) ps ->
   parse_parts cfg xs af = Ok (fold_left (fun af p => store (item_of p) af) ps af).
 Proof.
@@ -202,7 +198,7 @@ Qed.
 
 Lemma parts_no_early b ps xs : boundary_ok b = true ->
   Forall2 (fun p x => part_bytes p = Some x) ps xs ->
-  Forall (fun p => part_ok b p = true) ps ->
+  Forall (fun p => part_ok_full b p = true) ps ->
   Forall (no_early (sep_of b)) xs.
 Proof.
   intros Hb H. destruct (boundary_facts b Hb) as (Hne & H10 & H13 & _ & _).
@@ -224,7 +220,7 @@ Proof. induction 1; cbn; congruence. Qed.
 (* ---------- parse_multipart_form_data on an encoded form ---------- *)
 Theorem multipart_roundtrip cfg b e ps data :
   boundary_ok b = true ->
-  Forall (fun p => part_ok b p = true) ps ->
+  Forall (fun p => part_ok_full b p = true) ps ->
   config_ok cfg ps = true ->
   encode_multipart b e ps = Some data ->
   parse_multipart cfg b data = Ok (expected ps).
